@@ -41,12 +41,69 @@ def model_to_dict(m, inputs, size_hint=8):
     return out
 
 
+def _symbols(e, memo):
+    k = e.get_id()
+    if k in memo:
+        return memo[k]
+    out = set()
+    stack = [e]
+    seen = set()
+    while stack:
+        x = stack.pop()
+        i = x.get_id()
+        if i in seen:
+            continue
+        seen.add(i)
+        if z3.is_quantifier(x):
+            stack.append(x.body())
+        elif z3.is_app(x):
+            d = x.decl()
+            if d.kind() == z3.Z3_OP_UNINTERPRETED:
+                out.add(d.name())
+            stack.extend(x.children())
+    memo[k] = out
+    return out
+
+
+def cone_of_influence(hyps, goal, rounds):
+    memo = {}
+    rel = set(_symbols(goal, memo))
+    chosen = [False] * len(hyps)
+    for _ in range(rounds):
+        added = False
+        for i, h in enumerate(hyps):
+            if not chosen[i]:
+                sy = _symbols(h, memo)
+                if sy & rel:
+                    chosen[i] = True
+                    added = True
+        for i, h in enumerate(hyps):
+            if chosen[i]:
+                rel |= _symbols(h, memo)
+        if not added:
+            break
+    return [h for i, h in enumerate(hyps) if chosen[i]]
+
+
 def check(hyps, goal, inputs=None, timeout_ms=8000, use_cvc5=True, second_opinion=False):
     """-> (status, backend, seconds, model_dict|None, reason)"""
     t0 = time.time()
     if z3.is_true(z3.simplify(goal)):
         return "proved", "simplifier", time.time() - t0, None, ""
     neg = z3.Not(goal)
+    # fast path: prove from the hypotheses in the cone of influence of the goal (a subset: sound for `proved`)
+    if len(hyps) > 12:
+        for rounds in (1, 2):
+            sub = cone_of_influence(hyps, goal, rounds)
+            if len(sub) >= len(hyps):
+                break
+            fs = z3.Solver()
+            fs.set("timeout", 1500)
+            for h in sub:
+                fs.add(h)
+            fs.add(neg)
+            if fs.check() == z3.unsat:
+                return "proved", f"z3(cone-of-influence, {len(sub)}/{len(hyps)} hypotheses)", time.time() - t0, None, ""
     s = z3.Solver()
     s.set("timeout", min(timeout_ms, 2500))
     for h in hyps:
@@ -89,6 +146,21 @@ def check(hyps, goal, inputs=None, timeout_ms=8000, use_cvc5=True, second_opinio
                 return "proved", "z3-" + tac, time.time() - t0, None, ""
             if r == z3.sat:
                 return "refuted", "z3-" + tac, time.time() - t0, model_to_dict(ts.model(), inputs or {}), ""
+    if quant:
+        # proving from FEWER hypotheses is sound: drop the quantified ones and use the nonlinear tactics
+        qf = [h for h in hyps if not _has_quant([h])]
+        if not _has_quant([neg]):
+            for tac in ("qfnia", "default"):
+                try:
+                    ts = z3.Tactic(tac).solver() if tac != "default" else z3.Solver()
+                    ts.set("timeout", timeout_ms)
+                    for h in qf:
+                        ts.add(h)
+                    ts.add(neg)
+                    if ts.check() == z3.unsat:
+                        return "proved", f"z3-{tac}(quantifier-free hypotheses only)", time.time() - t0, None, ""
+                except z3.Z3Exception:
+                    continue
     if use_cvc5:
         r2 = run_cvc5(s, timeout_ms)
         if r2 == "unsat":
